@@ -667,6 +667,21 @@ impl WorldC {
                         json!({"call": kind, "stake": self.is_stake}),
                         format!("{}: diffs {:?} do not lead from the previous to the new membership", kind, n.1),
                     );
+                    // C10: what the staking contract reports about a member — to a listener as much as to a
+                    // query — is the quotient of its stake, and membership exactly stake >= min_bond
+                    if self.is_stake {
+                        for d in &n.1 {
+                            if postm.get(&d.key).cloned() != d.new {
+                                self.viol(
+                                    out,
+                                    "C10",
+                                    "reported-weight-ne-member-query",
+                                    json!({"channel": "hook"}),
+                                    format!("{}: listeners are told {} now has weight {:?}, the Member query says {:?}", kind, d.key, d.new, postm.get(&d.key)),
+                                );
+                            }
+                        }
+                    }
                 }
             }
             if changed && !pre.hooks.is_empty() {
